@@ -1355,9 +1355,6 @@ func (pk *packer) writeAZip(ctx context.Context, trunc blob.Ref) (err error) {
 		dr := chunks[0] // the next chunk to maybe write
 
 		if trunc.Valid() && trunc == dr {
-			if approxSize == 0 {
-				return errors.New("first blob is too large to pack, once you add the zip overhead")
-			}
 			break
 		}
 
@@ -1396,6 +1393,14 @@ func (pk *packer) writeAZip(ctx context.Context, trunc blob.Ref) (err error) {
 		dataRefsWritten = append(dataRefsWritten, dr)
 		dataBytesWritten += int64(size)
 		chunks = chunks[1:]
+	}
+	if len(dataRefsWritten) == 0 {
+		// Not even the next chunk fits (on its own, with its schema
+		// blobs and the zip overhead, it exceeds the limit, or the
+		// caller asked to truncate before it). Storing a zip without
+		// data would consume nothing from pk.chunksRemain and the
+		// caller would loop forever, storing empty zips.
+		return errors.New("first blob is too large to pack, once you add the zip overhead")
 	}
 	mf.DataBlobsOrigin = blob.RefFromHash(chunkWholeHash)
 
